@@ -206,6 +206,7 @@ type routingCase struct {
 	Longhand bool       `json:"longhand,omitempty"` // routes declared with Method(m).Path(p)
 	Options  bool       `json:"options_filter,omitempty"`
 	Switched bool       `json:"router_switched_first,omitempty"` // the other router was configured first
+	Reuse    bool       `json:"builder_reused,omitempty"`
 	Tier     string     `json:"tier,omitempty"`
 	Lite     bool       `json:"lite,omitempty"`
 	ReqIndex int        `json:"req_index,omitempty"` // position of Req in the sweep's request list (history replay)
@@ -228,7 +229,7 @@ func replayRouting(oracle func(rc routingCase, o rs.Outcome) error) replayFn {
 			return err
 		}
 		rs.Quiet(false)
-		b := rs.Build(rc.Table, rs.BuildOpt{Router: routerOf(rc.Router), Filter: rc.Filter, Longhand: rc.Longhand, Options: rc.Options, Switched: rc.Switched})
+		b := rs.Build(rc.Table, rs.BuildOpt{Router: routerOf(rc.Router), Filter: rc.Filter, Longhand: rc.Longhand, Options: rc.Options, Switched: rc.Switched, Reuse: rc.Reuse})
 		if b.Panic != "" {
 			return fmt.Errorf("container construction panics: %s", b.Panic)
 		}
@@ -240,7 +241,7 @@ func replayRouting(oracle func(rc routingCase, o rs.Outcome) error) replayFn {
 		// not reproduced alone: replay the sweep's requests that preceded it on a fresh container
 		for _, sp := range routingSweeps(routerOf(rc.Router), rc.Tier, rc.Lite) {
 			if sp.Name == rc.Sweep && rc.ReqIndex < len(sp.Reqs) {
-				b := rs.Build(rc.Table, rs.BuildOpt{Router: routerOf(rc.Router), Filter: rc.Filter, Longhand: rc.Longhand, Options: rc.Options, Switched: rc.Switched})
+				b := rs.Build(rc.Table, rs.BuildOpt{Router: routerOf(rc.Router), Filter: rc.Filter, Longhand: rc.Longhand, Options: rc.Options, Switched: rc.Switched, Reuse: rc.Reuse})
 				for k := 0; k <= rc.ReqIndex; k++ {
 					o = b.Do(sp.Reqs[k].HTTP(), h.NewRec(), rc.Serve)
 				}
@@ -368,6 +369,9 @@ func routingSweeps(r rm.Router, tier string, lite bool) []sweep {
 		// (MX) extension methods whose names contain one another, 2-3 routes on one template in every order
 		out = append(out, sweep{"MX", r, mxTables(), crossReqs([]h.Req{{Segs: []string{"m", "1"}}, {Segs: []string{"m"}}}, append([]string{"POST"}, c17MXMethods...), rs.PathSweepHeaders[:1], false)})
 	}
+	if !lite {
+		out = append(out, reuseSweep(r))
+	}
 	if only := os.Getenv("VERIF_ONLY_SWEEP"); only != "" {
 		var f []sweep
 		for _, sp := range out {
@@ -423,6 +427,36 @@ func wideSweep(r rm.Router) sweep {
 	}
 	hcs := []rs.HeaderCombo{{}, {Accept: "*/*"}, {Accept: rs.JSON}, {Accept: rs.XML}, {Accept: "text/plain"}}
 	return sweep{"W1", r, gen, crossReqs(paths, []string{"GET", "POST"}, hcs, false)}
+}
+
+// reuseSweep (R2): two routes of one service /h where the second is meant to be declared by using
+// the first route's RouteBuilder again (rs.BuildOpt.Reuse): other method / path / Consumes /
+// Produces, the first route's conditions plus possibly one more. A builder may be reused; the
+// route built first must not change when it is.
+func reuseSweep(r rm.Router) sweep {
+	var tabs []rm.Table
+	lists := func(ls ...[]string) [][]string { return ls }
+	for _, c1 := range lists(nil, []string{rs.JSON}) {
+		for _, p1 := range lists(nil, []string{rs.XML, rs.JSON}, []string{rs.JSON}) {
+			for _, if1 := range [][]rm.Cond{nil, {rm.CondHdr}, {rm.CondTrue}} {
+				for _, m2 := range []string{"GET", "POST"} {
+					for _, c2 := range lists([]string{rs.JSON}, []string{rs.XML, rs.JSON}) {
+						for _, p2 := range lists([]string{rs.JSON}, []string{rs.XML}, []string{rs.XML, rs.JSON}) {
+							for _, extra := range [][]rm.Cond{nil, {rm.CondHdr}, {rm.CondFalse}} {
+								if2 := append(append([]rm.Cond{}, if1...), extra...)
+								tabs = append(tabs, rm.Table{Svcs: []rm.SvcDecl{{Root: "/h", Routes: []rm.RouteDecl{
+									{ID: 0, Method: "GET", Sub: "/{x}", Consumes: c1, Produces: p1, If: if1},
+									{ID: 1, Method: m2, Sub: "/b/{y}", Consumes: c2, Produces: p2, If: if2}}}}})
+							}
+						}
+					}
+				}
+			}
+		}
+	}
+	hcs := rs.HeaderUniverse{CTs: []string{"", rs.JSON, "text/plain"}, Accepts: []string{"", rs.JSON, rs.XML, "text/plain"}, XCs: []string{"", "1"}, Bodies: []bool{false, true}}.Combos()
+	reqs := crossReqs([]h.Req{{Segs: []string{"h", "1"}}, {Segs: []string{"h", "b", "1"}}}, []string{"GET", "POST"}, hcs, false)
+	return sweep{"R2", r, tableGen{len(tabs), func(i int) rm.Table { return tabs[i] }}, reqs}
 }
 
 // defaultsTables: one service /d with service-level Consumes/Produces defaults and 1-2 routes that
